@@ -37,7 +37,8 @@ type VerifRead struct {
 }
 
 // VerifState is a read-only dump of everything a RawNode holds. Slices of
-// entries and messages alias the node's memory and must not be modified.
+// entries and messages alias the node's memory and must not be modified
+// (StepsOnAdvance, which the node rewrites in place, is copied).
 type VerifState struct {
 	ID, Term, Vote, Lead      uint64
 	LeadTransferee            uint64
@@ -125,7 +126,7 @@ func (rn *RawNode) VerifState() VerifState {
 		PendingReadIndex: r.pendingReadIndexMessages,
 		Msgs:             r.msgs,
 		MsgsAfterAppend:  r.msgsAfterAppend,
-		StepsOnAdvance:   rn.stepsOnAdvance,
+		StepsOnAdvance:   append([]*pb.Message(nil), rn.stepsOnAdvance...),
 		ReadStates:       r.readStates,
 		PrevHardSt:       rn.prevHardSt,
 		PrevSoftSt:       *rn.prevSoftSt,
